@@ -50,9 +50,9 @@ func init() {
 		New:         func() any { return &C09Case{} },
 		Check:       func(c any) Result { return checkC09(c.(*C09Case)) },
 		Quick:       8000,
-		Thorough:    60000,
+		Thorough:    300000,
 		FuzzTargets: []string{"FuzzExecReader"},
-		FuzzSeconds: 180,
+		FuzzSeconds: 300,
 	})
 }
 
